@@ -320,3 +320,92 @@ def _xml_file_declared_encoding(e, t0, t1):
         return root.get('units') == FILE_TEXTS[t0] and (root.text or '') == FILE_TEXTS[t1]
     finally:
         shutil.rmtree(tmp, ignore_errors=True)
+
+
+# ---------------------------------------------------------------------------------------------------- mixed content: text is recovered exactly (no indentation inside)
+
+def _run_mixed(kinds):
+    """kinds: sequence over 0 = start element, 1 = characters, 2 = end element.  Model nodes: [name, text, children, tail]."""
+    f = io.StringIO()
+    root = None
+    stack = []
+    nth = 0
+    with XmlWrite.XmlStream(f) as xs:
+        for k in kinds:
+            if k == 0:
+                if root is not None and not stack:
+                    continue
+                name = NAMES[len(stack) % 3]
+                xs.startElement(name, {})
+                node = [name, '', [], '']
+                if stack:
+                    stack[-1][2].append(node)
+                else:
+                    root = node
+                stack.append(node)
+            elif k == 1:
+                if not stack:
+                    continue
+                t = ['Depth: ', ' m', '1000.5'][nth % 3]
+                nth += 1
+                xs.characters(t)
+                if stack[-1][2]:
+                    stack[-1][2][-1][3] += t        # after a child: that child's tail
+                else:
+                    stack[-1][1] += t
+            else:
+                if not stack:
+                    continue
+                xs.endElement(stack[-1][0])
+                stack.pop()
+    return f.getvalue(), root
+
+
+def _has_text(n):
+    return bool(n[1]) or any(c[3] for c in n[2])
+
+
+def _exact(e, n, inside_mixed):
+    """Element e against model n.  The writer indents element-only content; once an element has received character data (and inside any
+    element that had received character data when this one was started) nothing may be added: every text and tail is then EXACT.  White
+    space only text before the first character data of an element is formatting (the writer cannot know that text will follow)."""
+    if e.tag != n[0] or len(e) != len(n[2]):
+        return False
+    started = inside_mixed
+    slots = [((e.text or ''), n[1], None, None)] + [((ce.tail or ''), cn[3], ce, cn) for ce, cn in zip(e, n[2])]
+    for got, want, ce, cn in slots:
+        if ce is not None and not _exact(ce, cn, started):        # the child was written before this slot's text
+            return False
+        if want != '':
+            # formatting written before the text started cannot be taken back: leading white space is allowed on the FIRST text only
+            if (got != want) if started else (got.lstrip() != want.lstrip() or not got.endswith(want)):
+                return False
+            started = True
+        elif started:
+            if got != '':
+                return False
+        elif got.strip() != '':
+            return False
+    return True
+
+
+def mixed_content(n: int, k0: int, k1: int, k2: int, k3: int, k4: int, k5: int, k6: int) -> bool:
+    """
+    pre: 1 <= n <= 7
+    pre: 0 <= k0 <= 2 and 0 <= k1 <= 2 and 0 <= k2 <= 2 and 0 <= k3 <= 2 and 0 <= k4 <= 2 and 0 <= k5 <= 2 and 0 <= k6 <= 2
+    pre: k0 == 0
+    pre: PART < 0 or k1 * 3 + k2 == PART
+    post: _
+    """
+    n = mark.pick(n, 1, 7)
+    ks = [mark.pick(k, 0, 2) if i < n else 0 for i, k in enumerate((k0, k1, k2, k3, k4, k5, k6))]
+    with mark.untraced():
+        text, root = _run_mixed(ks[:n])
+        mark.hit()
+        if root is None:
+            return True
+        try:
+            parsed = ET.fromstring(text.split('?>', 1)[1])
+        except ET.ParseError:
+            return False
+        return _exact(parsed, root, False)
